@@ -36,17 +36,18 @@ var (
 type v4model struct {
 	v4cfg
 	depth, nodedup int
+	budget         time.Duration
 }
 
 func v4configs(thorough bool) []v4model {
 	if thorough {
 		return []v4model{
-			{v4cfg{name: "k3 direct+relay+hlen", clients: 3, hlen: true, relay: true}, 6, 3},
-			{v4cfg{name: "k2 nil-loader", clients: 2, nilLdr: true}, 5, 0},
+			{v4cfg{name: "k3 direct+relay+hlen", clients: 3, hlen: true, relay: true}, 6, 3, 6 * time.Minute},
+			{v4cfg{name: "k2 direct+relay+hlen", clients: 2, hlen: true, relay: true}, 6, 0, 3 * time.Minute},
 		}
 	}
 	return []v4model{
-		{v4cfg{name: "k2 direct+relay+hlen", clients: 2, hlen: true, relay: true}, 5, 2},
+		{v4cfg{name: "k2 direct+relay+hlen", clients: 2, hlen: true, relay: true}, 5, 2, 5 * time.Minute},
 	}
 }
 
